@@ -24,8 +24,15 @@ OUT = automut.OUT
 PY = automut.PY
 
 
+OWN = False
+
+
 def recheck(rec, jobs):
     others = [p for p in automut.props_anchored_in(rec["file"]) if p != rec["property"]]
+    if OWN:
+        # the property's own check again (it has been strengthened since the first pass)
+        others = [rec["property"]]
+        rec.pop("killed_by_other", None)
     rec["rechecked"] = others
     if not others:
         return rec
@@ -44,7 +51,7 @@ def recheck(rec, jobs):
             r = subprocess.run([PY, "-m", "vf", p, "--tier", "quick"], cwd=ROOT, env=env, capture_output=True, text=True)
             lines = (r.stdout + r.stderr).splitlines()
             if r.returncode == 1 and any(ln.startswith("VIOLATION") for ln in lines):
-                rec["killed_by_other"] = p
+                rec["killed_by_other"] = p + (" (strengthened)" if OWN else "")
                 rec["other_first"] = next((ln.strip() for ln in lines if "violation in" in ln), "")[:300]
                 break
         return rec
@@ -57,14 +64,17 @@ def main():
     ap.add_argument("props", nargs="*")
     ap.add_argument("--workers", type=int, default=3)
     ap.add_argument("--jobs", type=int, default=4)
+    ap.add_argument("--own", action="store_true", help="re-run the property's own (strengthened) check")
     a = ap.parse_args()
+    global OWN
+    OWN = a.own
     files = sorted(OUT.glob("C*.jsonl"))
     if a.props:
         files = [f for f in files if f.stem in {p.upper() for p in a.props}]
     for f in files:
         recs = [json.loads(ln) for ln in f.read_text().splitlines()]
         todo = [r for r in recs if r["status"] != "KILLED" and not r["status"].startswith(("SYNTAX", "NOOP"))
-                and "rechecked" not in r]
+                and ("rechecked" not in r or (OWN and not r.get("killed_by_other")))]
         print(f.stem, len(todo), "to recheck", flush=True)
         with ThreadPoolExecutor(a.workers) as ex:
             for r in ex.map(lambda r: recheck(r, a.jobs), todo):
